@@ -122,9 +122,9 @@ func getU32(p []byte) (uint32, []byte, bool) {
 // dialArgs are the arguments the harness uses for dial number n of a given kind.
 type dialArgs struct {
 	network, addr string
-	host         string
-	port         int
-	laddr, raddr *net.TCPAddr
+	host          string
+	port          int
+	laddr, raddr  *net.TCPAddr
 }
 
 func argsFor(kind string, n int) dialArgs {
@@ -253,11 +253,11 @@ func decodeOut(p []byte) decoded {
 // ---------------------------------------------------------------- the raw peer
 
 type peer interface {
-	write(pkt []byte)  // one connection-protocol packet towards the client
-	drain() [][]byte   // packets the client wrote since the last call
-	eof()              // the peer drops the connection
-	garbage()          // bytes the client's transport cannot accept
-	shutdown()         // release everything (end of the replay)
+	write(pkt []byte)   // one connection-protocol packet towards the client
+	drain() [][]byte    // packets the client wrote since the last call
+	eof()               // the peer drops the connection
+	garbage()           // bytes the client's transport cannot accept
+	shutdown()          // release everything (end of the replay)
 	problems() []string // things that went wrong on the harness side (never a verdict)
 }
 
@@ -267,7 +267,7 @@ type frameList struct {
 	errs []string
 }
 
-func (f *frameList) add(p []byte) { f.mu.Lock(); f.pkts = append(f.pkts, p); f.mu.Unlock() }
+func (f *frameList) add(p []byte)  { f.mu.Lock(); f.pkts = append(f.pkts, p); f.mu.Unlock() }
 func (f *frameList) fail(s string) { f.mu.Lock(); f.errs = append(f.errs, s); f.mu.Unlock() }
 func (f *frameList) drain() [][]byte {
 	f.mu.Lock()
@@ -507,10 +507,10 @@ type world struct {
 	handlers  map[string]bool
 	dead      bool
 	waitErr   error
-	base      int      // goroutines of package ssh right after the connection was set up
-	pendOpen  *objT    // the dial started in the current step (its open packet has not been matched yet)
+	base      int           // goroutines of package ssh right after the connection was set up
+	pendOpen  *objT         // the dial started in the current step (its open packet has not been matched yet)
 	stop      chan struct{} // closed by cleanup: releases the harness's own collectors
-	notes     []string // harness-level findings about returned values (addresses, deadlines, messages)
+	notes     []string      // harness-level findings about returned values (addresses, deadlines, messages)
 }
 
 func (w *world) finish(call int, r resT) {
@@ -1121,6 +1121,7 @@ func (w *world) cleanup() {
 			o.cancel()
 		}
 	}
+	close(w.stop)
 	w.cl.Close()
 	w.pr.shutdown()
 	synctest.Wait()
